@@ -31,7 +31,7 @@ def check(tier, seed, t0):
         evals += o["evals"]
         for m in o["mismatches"]:
             v.mismatch("C02 %s %s" % (m["what"], json.dumps(m["src"])), {"mismatch": m})
-    n = 1500 if thorough else 150
+    n = 6000 if thorough else 150
     tpath = os.path.join(vlib.BUILD, "c02_trace.ndjson")
     vlib.harness(["record", "c02", tpath, "--seed", str(seed), "--n", str(n), "--cli", vlib.CLI], timeout=3000)
     events = vlib.read_ndjson(tpath)
